@@ -60,6 +60,8 @@ Half(D, mode, pre, R, X, T, bogus, flag, err, g, e, dup, ret, bad) ==
        <<err = 1 /\ ~may, "C12.spurious-raise">>,
        <<err = 2, "C12.internal">>,
        <<err = 0 /\ ~must /\ mode # 1 /\ NonDebugPart(D, e) # NonDebugPart(D, S) \ pre, "C12.exec">>,
+       \* C03: exactly the nodes of the selection (as the specification resolves the aliases) are entered, nothing else
+       <<err = 0 /\ ~must /\ mode # 1 /\ NonDebugPart(D, e) # NonDebugPart(D, S) \ pre, "C03.selection-exec">>,
        <<err = 0 /\ ~must /\ mode = 1 /\ e # runs, "C11.setup-exec">>,
        <<err = 0 /\ dup # {}, "C03.twice">>,
        <<err = 0 /\ mode = 2 /\ e # runs, "C03.call-exec">>,
